@@ -263,9 +263,11 @@ theorem inputs_depend_on_edits_only (ho : StrictOrder lt) (hw : C02.WF env lt) {
 every call is a theorem in the regime of C02 (`NoCatch`): in a state with certificates, a held
 computed element has a replayable trace of its formula (the calls it made, with the values they
 returned; calls made inside uncached callees flattened into it), and EVERY recorded call has its
-edge – so a value edit discards at least everything computed from the edited element.  The
-converse (every edge stems from a recorded call or cache hit: nothing ELSE is discarded) is
-`C08.edges_are_exactly_the_calls`. -/
+edge – so a value edit discards at least everything computed from the edited element – and every
+edge into it stems from a recorded call (`edges_stem_from_calls`; both directions together:
+`C08.edges_are_exactly_the_calls`), so nothing else is discarded: the descendants of `n` in the graph
+are exactly the elements whose recorded computation used, directly or transitively, a value
+returned by `n`. -/
 
 /-- **every call a held element's formula made has an edge in the trace graph** -/
 theorem calls_have_edges {s : St} (h : CI env lt s) (n : Node) (v : Val) (hl : lookup s.data n = some v)
@@ -275,6 +277,12 @@ theorem calls_have_edges {s : St} (h : CI env lt s) (n : Node) (v : Val) (hl : l
       (∀ m, FEv.ucall m ∈ flat n.1 tr → (GNode.obj m.1, GNode.elem n) ∈ s.ge) := by
   obtain ⟨tr, hc⟩ := h.certs n v hl hin
   exact ⟨tr, hc.replay, fun m w hm => ⟨(hc.events _ hm).1, (hc.events _ hm).2.2⟩, fun m hm => hc.events _ hm⟩
+
+/-- **every edge into a held computed element stems from a call its computation made** -/
+theorem edges_stem_from_calls {s : St} (n : Node) (v : Val) (tr : Tr) (hc : Cert env s n v tr) (a : GNode)
+    (he : (a, GNode.elem n) ∈ s.ge) :
+    (∃ m w, a = .elem m ∧ FEv.call m w ∈ flat n.1 tr) ∨ (∃ m, a = .obj m.1 ∧ FEv.ucall m ∈ flat n.1 tr) :=
+  hc.just a he
 
 /-- …hence **assigning to (or clearing) an element discards every value whose computation called
 it** – directly or from inside uncached callees. -/
